@@ -1594,6 +1594,9 @@ func runNodeRot(c *engine.Ctx) engine.Result {
 	for i := 0; i < c.Pick(6, 30); i++ {
 		runNRStoreOnceNodeIDs(c, i%2 == 1, i)
 	}
+	for i := 0; i < c.Pick(6, 30); i++ {
+		runNREntropy(c, i)
+	}
 	r.Require("refused:storeonce-node-id-of-another-node", 8)
 	r.Require("storeonce_own_node_id_rotation_honoured", 3)
 	r.Require("rotation_calls_with_nil_entries_in_the_option_list", 100)
